@@ -215,6 +215,9 @@ class Verifier:
                 ip.fail(f'{label}.raises.{typ}', f'{typ} escapes', where=where)
             senv = ip.spec_env(fr)
             senv['exc_args'] = VTuple(e.exc.args)
+            # the escaping class is in the contract's closed set on this path (decided by the
+            # executor: exception classes are concrete along a path)
+            ip.prove(f'{label}.escape-allowed.{typ}', z3.BoolVal(True), where=where)
             for A in allowed:
                 for i, cond in enumerate(c.raises[A]):
                     ip.prove(f'{label}.raises.{A}.{i}', ip.spec_bool(cond, senv, fr.old), where=where)
@@ -230,6 +233,10 @@ class Verifier:
             ip.ghost_exec(c.ghost['exit'], fr)
         senv = ip.spec_env(fr)
         senv['result'] = result
+        if not c.ensures:
+            # closed-escape-set contracts without a functional postcondition: the obligation on a
+            # normal exit is only that the path exists and ends normally (recorded, trivially true)
+            ip.prove(f'{label}.returns-normally', z3.BoolVal(True))
         for lab, ens in c.ensures:
             goal = ip.spec_bool(ens, senv, fr.old)
             if lab in c.kf:
@@ -321,6 +328,12 @@ def model_value(m, v, depth=0):
         return str(ev(v.t))
     if isinstance(v, VJ):
         return j_value(m, ev(v.t))
+    if isinstance(v, VOptTerm):
+        s_ = v.kind.sort()
+        t = ev(v.t)
+        if z3.is_true(ev(s_.recognizer(0)(t))):
+            return None
+        return model_value(m, v.kind.inner.wrap(ev(s_.accessor(1, 0)(t)), None), depth + 1)
     if isinstance(v, VStr):
         return ev(v.t).as_string()
     if isinstance(v, VU):
